@@ -25,7 +25,7 @@ RULE = ("seeded traces from real runs (single runs and CLI run-space launches in
         "enumerated after every emitted line (all prefixes); per prefix: emission order, 6-12 seeded permutations, "
         "k-way per-file interleavings, mid-way + double finalize; plus seeded subsets for order-independence. "
         "distinct_nontrivial = distinct (trace digest, prefix length) pairs with >= 2 records checked under >= 3 orders."
-        " Further seeded dimensions: retry launches sharing a launch id, records delivered one by one / as a list batch / as lazy one-shot streams.")
+        " Further seeded dimensions: retry launches sharing a launch id, records delivered one by one / as a list batch / as lazy one-shot streams. Seventh round: a standalone run in the same aggregator as a launch, another aggregator object that saw the full trace first, crash points in seeded order.")
 REAL_COMPONENTS = ["TraceAggregator (ingest, finalize_run, finalize_launch, finalize_all)", "producer: Pipeline/orchestrator/"
                    "JsonlTraceDriver/CLI run loop/RunSpaceTraceEmitter"]
 STUB_COMPONENTS = ["leaf processors", "RecordingExecutor", "SimClock/SimUUID", "delivery scheduler (harness)",
